@@ -369,6 +369,9 @@ def r4_auth(chk: Check) -> None:
         elif not all_assigns:
             chk.violation("C19.R4", fn, construct, "no per-call FilterSet: providers registered through this entry point share one filter object", fn.loc())
             continue
+        elif all(v is not None and not any(isinstance(x, ast.Call) for x in ast.walk(v)) for _s, v in all_assigns):
+            chk.violation("C19.R4", fn, construct, f"filter_set is bound to `{unparse(all_assigns[0][1])}`, an object that is not created by this call: all providers registered through this entry point share one filter object", fn.loc(all_assigns[0][0]))
+            continue
         else:
             chk.undecided("C19.R4", fn, construct, "filter_set bound in an unrecognised way", fn.loc())
             continue
